@@ -133,6 +133,8 @@ PROPS = {
     },
     "C06": {
         "gen": _c06_gen,
+        "sweep": gen.c06_sweep_cases,
+        "exhaustive_note": "sweep part: for each enumerated problem (1 in quick, 10 in thorough) EVERY (method, response class of that method's table, x kind) combination of the scripted peer, and the SLSQP-success-with-violation -> trust-constr retry crossed with every trust-constr class; exhaustive over the class table for those problems only",
         "level": "exploration",
         "rule": _PEER_RULE + "  Oracle: status OPTIMAL => every constraint (harness-side Constraint.violation on the returned values) and every "
         "declared bound holds within max(1e-5, 10*tol) + 1e-5*scale.",
@@ -140,6 +142,8 @@ PROPS = {
     },
     "C07": {
         "gen": _c07_gen,
+        "sweep": gen.c07_sweep_cases,
+        "exhaustive_note": "sweep part: as C06 -- every (method, response class, x kind) of the scripted-peer table for the enumerated problems",
         "level": "exploration",
         "rule": _PEER_RULE + "  Oracle: whenever values and objective_value are returned, objective_value = the user's objective expression "
         "evaluated at the returned values (1e-9 relative), keys(values) = exactly the variables the model mentions (computed from the harness's own "
